@@ -1,4 +1,4 @@
-CONSTANTS MaxN = 3 MaxDepth = 4 Lat <- MCLat
+CONSTANTS MaxN = 3 MaxDepth = 4 Lat <- MCLat DKs <- MCDKsQuick
 INIT TSInit
 NEXT TSNext
 INVARIANT InBounds
